@@ -492,6 +492,10 @@ def run_cocompute(res, shard):
     if shard["tier"] == "quick":
         tuples = tuples[: len(vs) + 30]
     tuples += [(("base", base), vs[0], vs[-1]), (vs[1], ("base", base), vs[2])]
+    # the plans of one reduction side by side (map-reduce with intermediates reindexed at combine time next to cohorts): always explored
+    byname = dict(vs)
+    if "method" in byname and "reindex" in byname and (("method", byname["method"]), ("reindex", byname["reindex"])) not in tuples:
+        tuples.append((("method", byname["method"]), ("reindex", byname["reindex"])))
     for combo in tuples:
         names = [n for n, _ in combo]
         case = dict(base=shard["base"], func=base["func"], combo=names)
